@@ -342,14 +342,17 @@ class P(Property):
                 frames.append(frame(rng, 7, enc(x)))
             evs = ['P', 'U%d' % sid, '%d:c:00' % sid]
             script = rng.choice(['nocredit', 'late', 'nobudget', 'partial', 'free'])
+            small = 0   # small grants stay below the shortest possible grease write (9 bytes): the model is determinate
             for f in frames:
                 evs.append('%d:c:%s' % (sid, f.hex()))
                 if rng.random() < 0.7:
                     evs.append('P')
                 if script == 'late' and rng.random() < 0.3:
                     evs.append('G1')
-                if script == 'partial' and rng.random() < 0.5:
-                    evs.append('W%d:%d' % (gid, rng.choice([1, 2])))
+                if script == 'partial' and rng.random() < 0.5 and small <= 6:
+                    k = rng.choice([1, 2])
+                    small += k
+                    evs.append('W%d:%d' % (gid, k))
             evs += ['P', 'P']
             if script in ('nocredit', 'late'):
                 out.append(line(role, 1, 3, 'u', evs))
